@@ -544,7 +544,29 @@ pub fn run_c18(ctx: &Ctx) -> i32 {
         hists.extend(next.iter().cloned());
         frontier = next;
     }
-    let jobs: Vec<(usize, usize, usize)> = (0..pairs.len()).flat_map(|p| (0..hists.len()).flat_map(move |h| (0..3usize).map(move |t| (p, h, t)))).collect();
+    // the new game is opened by every sequence of length 2 or 3 over {ucinewgame, position M,
+    // isready, stop} that contains both `ucinewgame` and `position M` (20 orders)
+    let syms = ["ucinewgame", "M", "isready", "stop"];
+    let mut tails: Vec<Vec<&str>> = Vec::new();
+    for a in syms {
+        for b in syms {
+            tails.push(vec![a, b]);
+            for c in syms {
+                tails.push(vec![a, b, c]);
+            }
+        }
+    }
+    tails.retain(|t| t.contains(&"ucinewgame") && t.contains(&"M"));
+    let n_tails = if quick { tails.len() } else { tails.len() };
+    ctx.add("new_game_orders", n_tails as u64);
+    let tails = &tails;
+    // quick: the longest histories are combined with the three customary orders only
+    let hist_lens: Vec<usize> = hists.iter().map(|h| h.len()).collect();
+    let tail_is_basic: Vec<bool> = tails.iter().map(|t| t.len() == 2 || *t == vec!["M", "ucinewgame", "isready"]).collect();
+    let jobs: Vec<(usize, usize, usize)> = (0..pairs.len())
+        .flat_map(|p| (0..hists.len()).flat_map(move |h| (0..n_tails).map(move |t| (p, h, t))))
+        .filter(|&(p, h, t)| if quick { hist_lens[h] < max_len || tail_is_basic[t] } else { hist_lens[h] < max_len || (tail_is_basic[t] && p < 2) })
+        .collect();
     ctx.add("histories", hists.len() as u64);
     par_io(ctx, &jobs, io_threads(), |&(pi, hi, tail_kind), l| {
         let (m, s_pos, mv) = &pairs[pi];
@@ -592,11 +614,13 @@ pub fn run_c18(ctx: &Ctx) -> i32 {
         }
         // the new game is opened in three orders: the customary `ucinewgame; position M`,
         // `position M; ucinewgame`, and the latter with an `isready` in between
-        let tail: Vec<String> = match tail_kind {
-            0 => vec!["ucinewgame".to_string(), format!("position fen {}", m.fen())],
-            1 => vec![format!("position fen {}", m.fen()), "ucinewgame".to_string()],
-            _ => vec![format!("position fen {}", m.fen()), "ucinewgame".to_string(), "isready".to_string()],
-        };
+        let tail: Vec<String> = tails[tail_kind]
+            .iter()
+            .map(|t| match *t {
+                "M" => format!("position fen {}", m.fen()),
+                other => other.to_string(),
+            })
+            .collect();
         for t in tail {
             sent.push(t.clone());
             if t == "isready" {
@@ -643,7 +667,7 @@ pub fn run_c18(ctx: &Ctx) -> i32 {
         ctx.get("sessions").max(1),
         ctx.get("sessions"),
         true,
-        "every command history of length <= 3 (thorough 4) over {position S, position other, go depth 1 (waited), go depth 3 (not waited), stop, isready} followed by the new game opened in three orders (`ucinewgame; position M`, `position M; ucinewgame`, `position M; ucinewgame; isready`) and `go depth 4`, for tablebase pairs (M,S): M is a mate in 3 plies whose only first move that mates within 5 plies leads to S (both colours, rook and queen); each history is one process run; the answer must be the one a fresh process gives (the empty history is in the set): terminal winning score and that unique bestmove",
+        "every command history of length <= 3 (thorough 4) over {position S, position other, go depth 1 (waited), go depth 3 (not waited), stop, isready} followed by the new game opened in every order of length 2-3 over {ucinewgame, position M, isready, stop} that contains both `ucinewgame` and `position M` (20 orders; in the quick tier the longest histories are combined with the three customary orders only) and `go depth 4`, for tablebase pairs (M,S): M is a mate in 3 plies whose only first move that mates within 5 plies leads to S (both colours, rook and queen); each history is one process run; the answer must be the one a fresh process gives (the empty history is in the set): terminal winning score and that unique bestmove",
         &["seeds inside the UCI loop come from the OS; the expected answer is therefore the tablebase-unique move, not a byte-identical transcript"],
     )
 }
